@@ -70,6 +70,16 @@ def fresh_of_type(interp, t, name):
         return OptionalVal(z3.Bool(fresh_name(name + ".present")), inner)
     if t.startswith("seq[") and t.endswith("]"):
         return fresh_seq(interp, t[4:-1], name)
+    if t.startswith("inst:"):
+        # inst:<module>.<Class>{field:type,...}
+        head, _, rest = t[5:].partition("{")
+        mod, _, cls = head.rpartition(".")
+        inst = Inst(cls, module=mod)
+        for part in split_top(rest.rstrip("}")):
+            if part:
+                f, _, ft = part.partition(":")
+                inst.fields[f.strip()] = fresh_of_type(interp, ft.strip(), "%s.%s" % (name, f.strip()))
+        return inst
     if t in CUSTOM_TYPES:
         return CUSTOM_TYPES[t](interp, name)
     raise OutOfSubset("unknown type %r in contract" % t)
